@@ -250,12 +250,18 @@ class Scheduler:
 
     def _maybe_stall(self, cur, func, line=0):
         """Fault: the OS deschedules a thread for a while right here (slow / starved thread)."""
-        n = self.stall_seen[func] = self.stall_seen.get(func, 0) + 1
-        m = 0
-        if self.stall_armed:
-            m = self.stall_seen_armed[func] = self.stall_seen_armed.get(func, 0) + 1
-        for st in self.stalls:
-            if st["func"] == func and ((st.get("after") and st["nth"] == m) or (not st.get("after") and st["nth"] == n)):
+        # every planned stall counts the lines of its function on its own: from the start or
+        # from the termination trigger ("after"), by any thread or only by threads other than
+        # the main thread ("not_main": submitters, payload threads, the trio thread)
+        for i, st in enumerate(self.stalls):
+            if st["func"] != func:
+                continue
+            if st.get("after") and not self.stall_armed:
+                continue
+            if st.get("not_main") and cur.is_main:
+                continue
+            c = self.stall_seen[i] = self.stall_seen.get(i, 0) + 1
+            if c == st["nth"]:
                 self.count_fault("stall-in:" + func)
                 self.probe("stall-at:%s:%s:%s" % (func, line, cur.name.split("#")[0]))
                 self.stall_total += st["dur"]
